@@ -118,6 +118,7 @@ public:
 
         void unblock_sync() {
             _block.store(true, std::memory_order_release);
+            COCLS_VERIF_POINT(gen_unblock_sync);
             _block.notify_all();
         }
 
@@ -147,6 +148,7 @@ public:
                 p = &me.promise();
                 p->_arg = nullptr;
                 awaiter *caller = std::exchange(p->_caller, nullptr);
+                COCLS_VERIF_POINT(gen_yield_suspend);
                 return caller->resume().pop();
             }
             reference_Arg  await_resume() noexcept {
@@ -228,6 +230,7 @@ public:
             //resume generator, function exits on co_yield or co_await
             h.resume();
             //block thread if the generator still running
+            COCLS_VERIF_POINT(gen_sync_pre_wait);
             _block.wait(false, std::memory_order_acquire);
         }
 
